@@ -314,10 +314,16 @@ class ServerIface(SFTPServerInterface):
 class SftpPair:
     """Build inside a scheduler run.  `root` is the served directory."""
 
-    def __init__(self, root, plan=None, server_class=SFTPServer, fair_prefetch_lock=True):
+    def __init__(self, root, plan=None, server_class=SFTPServer, fair_prefetch_lock=True, window=None):
+        """window=(c2s, s2c): optional byte bounds of the two directions - a send blocks (scheduler
+        block) while the peer has that many unconsumed bytes (sftp_raw.bound_sends); default unbounded."""
         self.root = root
         self.plan = plan or FaultPlan()
         self.csock, self.ssock = vsocket.pair("c", "s")
+        if window is not None:
+            from .sftp_raw import bound_sends
+            bound_sends(self.csock, window[0], "request-send-window")
+            bound_sends(self.ssock, window[1], "response-send-window")
         self.cchan = Chan(self.csock, "c")
         self.schan = Chan(self.ssock, "s")
         self.server = server_class(self.schan, "sftp", None, ServerIface, root=root, plan=self.plan)
